@@ -1151,6 +1151,20 @@ pub fn run_case(case: &Case) {
             let (s, e) = (*s, *e);
             run_generic(case, false, &mut || IntoConcurrentIter::into_con_iter(s..e));
         }
+        (Src::Iter(script, hint), _) if case.nested => {
+            // two wrappers nested: the outer concurrent iterator wraps the sequential view `values()` of an inner one over the probe
+            let inner = IterIntoConcurrentIter::into_con_iter(Probe(ProbeCore::new(script.clone(), *hint)));
+            {
+                let mut once = Some(inner.values());
+                run_generic(case, true, &mut || {
+                    let v = once.take().expect("iter kinds have one slot");
+                    ConIterOfIter::new(v)
+                });
+            }
+            set_track(true);
+            drop(inner);
+            set_track(false);
+        }
         (Src::Iter(script, hint), _) if case.zstiter => {
             // a wrapped iterator of a zero-sized *type*: its state is outside the value
             let core = Box::into_raw(Box::new(ProbeCore::new(script.clone(), *hint)));
